@@ -701,6 +701,39 @@ def copy_names(tree: ast.AST) -> ast.AST:
                         return None
                 return None
             hit = None
+            # y = x[k] (k a constant) with x a local list/tuple that is not rebound or item-assigned afterwards: y is x[k]
+            for st in own:
+                if id(st) in inner or not (isinstance(st, ast.Assign) and len(st.targets) == 1 and isinstance(st.targets[0], ast.Name)
+                                           and isinstance(st.value, ast.Subscript) and isinstance(st.value.value, ast.Name)
+                                           and isinstance(st.value.slice, ast.Constant) and isinstance(st.value.slice.value, int)):
+                    continue
+                y, x = st.targets[0].id, st.value.value.id
+                if y == x or y in params or n_store.get(y) != 1 or in_loop(st) is not None or x not in n_store and x not in params:
+                    continue
+                pos = (getattr(st, "lineno", 0), getattr(st, "col_offset", 0))
+                later_store = any(isinstance(u, ast.Name) and u.id == x and isinstance(u.ctx, (ast.Store, ast.Del))
+                                  and (getattr(u, "lineno", 0), getattr(u, "col_offset", 0)) > pos for u in own)
+                item_store = any(isinstance(u, ast.Subscript) and isinstance(u.ctx, (ast.Store, ast.Del)) and isinstance(u.value, ast.Name) and u.value.id == x
+                                 for u in own)
+                mutated = any(isinstance(u, ast.Call) and isinstance(u.func, ast.Attribute) and isinstance(u.func.value, ast.Name) and u.func.value.id == x
+                              and u.func.attr in ("append", "insert", "pop", "remove", "reverse", "sort", "clear", "extend") for u in own)
+                ystore_inner = any(isinstance(u, ast.Name) and u.id in (x, y) and id(u) in inner for u in own)
+                if later_store or item_store or mutated or ystore_inner:
+                    continue
+                import copy as _c
+                for u in own:
+                    if isinstance(u, ast.Name) and u.id == y and isinstance(u.ctx, ast.Load):
+                        par_ = pm.get(id(u))
+                        new_ = ast.copy_location(_c.deepcopy(st.value), u)
+                        for z in ast.walk(new_):
+                            if hasattr(z, "lineno"):
+                                z.lineno, z.col_offset = u.lineno, u.col_offset
+                        _swap_child(par_, u, new_)
+                _drop_stmt(fn, st)
+                hit = "sub"
+                break
+            if hit == "sub":
+                continue
             for st in own:
                 if id(st) in inner or not (isinstance(st, ast.Assign) and len(st.targets) == 1 and isinstance(st.targets[0], ast.Name)
                                            and isinstance(st.value, ast.Name)):
@@ -729,6 +762,276 @@ def copy_names(tree: ast.AST) -> ast.AST:
                     u.id = x
             _drop_stmt(fn, st)
     return tree
+
+
+# --------------------------------------------------------------------------
+# a local that is only ever a freshly built NamedTuple read field by field
+# --------------------------------------------------------------------------
+def sroa_namedtuples(tree: ast.Module) -> ast.AST:
+    """`cfg = Config(a, b)` ... `cfg.x` ... `cfg = Config(c, d)` with Config a NamedTuple (or dataclass-like class with
+    annotated fields only) of the module, where the local is ONLY bound to constructor calls and ONLY read through its
+    fields: the aggregate is written as one local per field (`cfg_x, cfg_y = a, b`).  Exact: nobody can observe the
+    tuple object itself."""
+    classes: Dict[str, List[str]] = {}
+    for c in tree.body:
+        if isinstance(c, ast.ClassDef) and any(norm(b).split(".")[-1] == "NamedTuple" for b in c.bases):
+            fields = [s.target.id for s in c.body if isinstance(s, ast.AnnAssign) and isinstance(s.target, ast.Name)]
+            if fields and all(isinstance(s, (ast.AnnAssign, ast.Expr, ast.Pass)) for s in c.body):
+                classes[c.name] = fields
+        if isinstance(c, ast.Assign) and len(c.targets) == 1 and isinstance(c.targets[0], ast.Name) and isinstance(c.value, ast.Call) \
+                and norm(c.value.func).split(".")[-1] in ("namedtuple", "NamedTuple") and len(c.value.args) >= 2:
+            spec = c.value.args[1]
+            if isinstance(spec, (ast.List, ast.Tuple)):
+                fl = []
+                for e in spec.elts:
+                    if isinstance(e, ast.Constant) and isinstance(e.value, str):
+                        fl.append(e.value)
+                    elif isinstance(e, (ast.Tuple, ast.List)) and e.elts and isinstance(e.elts[0], ast.Constant):
+                        fl.append(e.elts[0].value)
+                if len(fl) == len(spec.elts):
+                    classes[c.targets[0].id] = fl
+            elif isinstance(spec, ast.Constant) and isinstance(spec.value, str):
+                classes[c.targets[0].id] = spec.value.replace(",", " ").split()
+    if not classes:
+        return tree
+    for fn in [n for n in ast.walk(tree) if isinstance(n, (ast.FunctionDef, ast.AsyncFunctionDef))]:
+        pm: Dict[int, ast.AST] = {}
+        own = list(ast.walk(fn))
+        for x in own:
+            for ch in ast.iter_child_nodes(x):
+                pm[id(ch)] = x
+        params = {a.arg for a in fn.args.posonlyargs + fn.args.args + fn.args.kwonlyargs}
+        names = {x.id for x in own if isinstance(x, ast.Name) and isinstance(x.ctx, ast.Store)} - params
+        for v in sorted(names):
+            stores = [x for x in own if isinstance(x, ast.Name) and x.id == v and isinstance(x.ctx, (ast.Store, ast.Del))]
+            loads = [x for x in own if isinstance(x, ast.Name) and x.id == v and isinstance(x.ctx, ast.Load)]
+            cls = None
+            ok = bool(stores) and bool(loads)
+            assigns = []
+            for st in stores:
+                par = pm.get(id(st))
+                if not (isinstance(par, ast.Assign) and len(par.targets) == 1 and par.targets[0] is st and isinstance(par.value, ast.Call)
+                        and isinstance(par.value.func, ast.Name) and par.value.func.id in classes):
+                    ok = False
+                    break
+                c_ = par.value.func.id
+                if cls not in (None, c_):
+                    ok = False
+                    break
+                cls = c_
+                call = par.value
+                if any(isinstance(a, ast.Starred) for a in call.args) or any(k.arg is None for k in call.keywords) \
+                        or len(call.args) + len(call.keywords) != len(classes[c_]):
+                    ok = False
+                    break
+                assigns.append(par)
+            if not ok or cls is None:
+                continue
+            fields = classes[cls]
+
+            def _field_read(l):
+                return isinstance(pm.get(id(l)), ast.Attribute) and pm[id(l)].value is l and pm[id(l)].attr in fields \
+                    and isinstance(pm[id(l)].ctx, ast.Load)
+
+            def _star_arg(l):
+                # f(*v): the fields in order
+                st_ = pm.get(id(l))
+                return isinstance(st_, ast.Starred) and isinstance(pm.get(id(st_)), ast.Call) and any(st_ is a_ for a_ in pm[id(st_)].args)
+            if not all(_field_read(l) or _star_arg(l) for l in loads):
+                continue
+            if any("%s_%s" % (v, f_) in names | params for f_ in fields):
+                continue
+            for par in assigns:
+                call = par.value
+                vals = list(call.args) + [None] * (len(fields) - len(call.args))
+                for k in call.keywords:
+                    if k.arg in fields:
+                        vals[fields.index(k.arg)] = k.value
+                if any(x is None for x in vals):
+                    break
+                par.targets = [ast.Tuple([ast.Name("%s_%s" % (v, f_), ast.Store()) for f_ in fields], ast.Store())]
+                par.value = ast.copy_location(ast.Tuple(vals, ast.Load()), call)
+            for l in loads:
+                at = pm[id(l)]
+                if isinstance(at, ast.Starred):
+                    call_ = pm[id(at)]
+                    i_ = [k_ for k_, a_ in enumerate(call_.args) if a_ is at][0]
+                    call_.args[i_:i_ + 1] = [ast.copy_location(ast.Name("%s_%s" % (v, f_), ast.Load()), at) for f_ in fields]
+                    continue
+                new = ast.copy_location(ast.Name("%s_%s" % (v, at.attr), ast.Load()), at)
+                _swap_child(pm[id(at)], at, new)
+    return ast.fix_missing_locations(tree)
+
+
+# --------------------------------------------------------------------------
+# a method chosen by a code stored at construction and looked up at each call
+# --------------------------------------------------------------------------
+def sentinel_dispatch(tree: ast.Module) -> ast.AST:
+    """`self._kind = K_i` in the constructor and `if self._kind == K_1: return self.m1(x) ... else: return self.m3(x)` in
+    exactly one method is the same thing as storing the bound method (`self._kind = self.m_i`) and calling it
+    (`return self._kind(x)`): rewritten to the latter when the attribute is only ever assigned constants (literals or
+    class-level constants), only ever read in that one dispatch, and every assigned constant has exactly one branch."""
+    for cls in [c for c in tree.body if isinstance(c, ast.ClassDef)]:
+        consts: Dict[str, Any] = {}
+        for st in cls.body:
+            if isinstance(st, (ast.Assign, ast.AnnAssign)) and getattr(st, "value", None) is not None and isinstance(st.value, ast.Constant):
+                for t in (st.targets if isinstance(st, ast.Assign) else [st.target]):
+                    if isinstance(t, ast.Name):
+                        consts[t.id] = st.value.value
+        methods = [m for m in cls.body if isinstance(m, (ast.FunctionDef, ast.AsyncFunctionDef))]
+
+        def cval(e):
+            if isinstance(e, ast.Constant) and isinstance(e.value, (str, int)) and not isinstance(e.value, bool):
+                return ("k", e.value)
+            if isinstance(e, ast.Attribute) and isinstance(e.value, ast.Name) and e.value.id in ("self", "cls", cls.name) and e.attr in consts:
+                return ("k", consts[e.attr])
+            return None
+        attrs = {x.attr for m in methods for x in ast.walk(m) if isinstance(x, ast.Attribute) and isinstance(x.ctx, ast.Store)
+                 and isinstance(x.value, ast.Name) and x.value.id == "self"}
+        for a in sorted(attrs):
+            stores, loads = [], []
+            for m in methods:
+                pm: Dict[int, ast.AST] = {}
+                for x in ast.walk(m):
+                    for ch in ast.iter_child_nodes(x):
+                        pm[id(ch)] = x
+                for x in ast.walk(m):
+                    if isinstance(x, ast.Attribute) and x.attr == a and isinstance(x.value, ast.Name) and x.value.id == "self":
+                        (stores if isinstance(x.ctx, ast.Store) else loads).append((m, x, pm))
+            if not stores or not loads:
+                continue
+            vals = []
+            okc = True
+            for m, x, pm in stores:
+                par = pm.get(id(x))
+                if not (isinstance(par, ast.Assign) and len(par.targets) == 1 and par.targets[0] is x and cval(par.value)):
+                    okc = False
+                    break
+                vals.append((par, cval(par.value)[1]))
+            if not okc or len({id(m) for m, _, _ in loads}) != 1:
+                continue
+            disp = loads[0][0]
+
+            def chain(stmts):
+                stmts = [s for s in stmts if not (isinstance(s, ast.Expr) and isinstance(s.value, ast.Constant))]
+                if not stmts:
+                    return None
+                s0 = stmts[0]
+                if isinstance(s0, ast.Return) and len(stmts) == 1:
+                    return [(None, s0)]
+                if isinstance(s0, ast.If) and len(s0.body) == 1 and isinstance(s0.body[0], ast.Return):
+                    rest = s0.orelse if s0.orelse else stmts[1:]
+                    if s0.orelse and len(stmts) > 1:
+                        return None
+                    tail = chain(rest)
+                    return None if tail is None else [(s0.test, s0.body[0])] + tail
+                return None
+            ch = chain(disp.body)
+            if ch is None or len(ch) < 2:
+                continue
+            table: Dict[Any, str] = {}
+            default = None
+            argtxt = None
+            good = True
+            n_loads = 0
+            for test, ret in ch:
+                v = ret.value
+                if not (isinstance(v, ast.Call) and isinstance(v.func, ast.Attribute) and isinstance(v.func.value, ast.Name)
+                        and v.func.value.id == "self" and v.func.attr in {m.name for m in methods} and not v.keywords):
+                    good = False
+                    break
+                at = ast.dump(ast.Tuple(list(v.args), ast.Load()))
+                if argtxt not in (None, at):
+                    good = False
+                    break
+                argtxt = at
+                if test is None:
+                    default = v.func.attr
+                    continue
+                if not (isinstance(test, ast.Compare) and len(test.ops) == 1 and isinstance(test.ops[0], ast.Eq)):
+                    good = False
+                    break
+                sides = [test.left, test.comparators[0]]
+                sel = [s for s in sides if isinstance(s, ast.Attribute) and s.attr == a and isinstance(s.value, ast.Name) and s.value.id == "self"]
+                oth = [s for s in sides if s not in sel]
+                if len(sel) != 1 or not cval(oth[0]) or cval(oth[0])[1] in table:
+                    good = False
+                    break
+                n_loads += 1
+                table[cval(oth[0])[1]] = v.func.attr
+            if not good or n_loads != len(loads):
+                continue
+            assigned = {v for _, v in vals}
+            if not assigned <= set(table) and default is None:
+                continue
+            for par, v in vals:
+                par.value = ast.copy_location(ast.Attribute(ast.Name("self", ast.Load()), table.get(v, default), ast.Load()), par.value)
+            last_ret = ch[-1][1]
+            new_ret = ast.copy_location(ast.Return(ast.Call(ast.Attribute(ast.Name("self", ast.Load()), a, ast.Load()), list(last_ret.value.args), [])), disp.body[0])
+            doc = [s for s in disp.body if isinstance(s, ast.Expr) and isinstance(s.value, ast.Constant)]
+            disp.body = doc[:1] + [new_ret]
+    return ast.fix_missing_locations(tree)
+
+
+class _FoldConstTests(ast.NodeTransformer):
+    """Tests on literal constants (left behind when a helper is spliced in with a literal argument): `A if True else B` -> A,
+    `if False: S else: T` -> T, `not True` -> False, `True and x` -> x, `False or x` -> x."""
+    @staticmethod
+    def _const(e):
+        if isinstance(e, ast.Constant) and (isinstance(e.value, (bool, int, str)) or e.value is None) and not isinstance(e.value, float):
+            return True, bool(e.value)
+        return False, None
+
+    def visit_UnaryOp(self, node):
+        self.generic_visit(node)
+        if isinstance(node.op, ast.Not):
+            k, v = self._const(node.operand)
+            if k:
+                return ast.copy_location(ast.Constant(not v), node)
+        return node
+
+    def visit_BoolOp(self, node):
+        self.generic_visit(node)
+        isand = isinstance(node.op, ast.And)
+        vals = []
+        for v in node.values:
+            k, b = self._const(v)
+            if k and isinstance(v.value, bool):
+                if b == isand:
+                    continue                    # neutral element
+                return ast.copy_location(ast.Constant(b), node) if not vals else ast.copy_location(
+                    ast.BoolOp(node.op, vals + [v]) if len(vals) > 0 else v, node)
+            vals.append(v)
+        if not vals:
+            return ast.copy_location(ast.Constant(isand), node)
+        return vals[0] if len(vals) == 1 else ast.copy_location(ast.BoolOp(node.op, vals), node)
+
+    def visit_IfExp(self, node):
+        self.generic_visit(node)
+        k, v = self._const(node.test)
+        if k:
+            return node.body if v else node.orelse
+        return node
+
+    def visit_If(self, node):
+        self.generic_visit(node)
+        k, v = self._const(node.test)
+        if k:
+            blk = node.body if v else node.orelse
+            return blk if blk else None
+        return node
+
+    def generic_visit(self, node):
+        super().generic_visit(node)
+        for fld in ("body", "orelse", "finalbody"):
+            b = getattr(node, fld, None)
+            if isinstance(b, list) and fld == "body" and not b and isinstance(node, (ast.FunctionDef, ast.For, ast.While, ast.With, ast.If, ast.Try, ast.ExceptHandler, ast.ClassDef)):
+                node.body = [ast.Pass()]
+        return node
+
+
+def fold_constant_tests(tree: ast.AST) -> ast.AST:
+    return ast.fix_missing_locations(_FoldConstTests().visit(tree))
 
 
 def package_properties(trees: Iterable[ast.AST]) -> Set[str]:
@@ -1330,6 +1633,19 @@ class _Literals(ast.NodeTransformer):
                     for t, e in zip(a.targets[0].elts, a.value.elts):
                         merged.append(ast.copy_location(ast.Assign([ast.Name(t.id, ast.Store())], e), a))
                     continue
+            # item / attribute targets: `m[0, 1], m[0, 2] = (x, -y)` -> two stores, when the right-hand sides are built from
+            # plain names and constants only (nothing a store could change) and no target name is read on the right
+            if isinstance(a, ast.Assign) and len(a.targets) == 1 and isinstance(a.targets[0], ast.Tuple) and isinstance(a.value, ast.Tuple) \
+                    and len(a.targets[0].elts) == len(a.value.elts) \
+                    and all(isinstance(t, (ast.Subscript, ast.Attribute, ast.Name)) for t in a.targets[0].elts) \
+                    and all(isinstance(x, (ast.Name, ast.Constant, ast.UnaryOp, ast.BinOp, ast.operator, ast.unaryop, ast.expr_context))
+                            for e in a.value.elts for x in ast.walk(e)):
+                tn = {x.id for t in a.targets[0].elts for x in ast.walk(t) if isinstance(x, ast.Name) and isinstance(x.ctx, ast.Store)}
+                rn = {x.id for e in a.value.elts for x in ast.walk(e) if isinstance(x, ast.Name)}
+                if not (tn & rn):
+                    for t, e in zip(a.targets[0].elts, a.value.elts):
+                        merged.append(ast.copy_location(ast.Assign([t], e), a))
+                    continue
             merged.append(a)
         body = merged
         for s in body:
@@ -1804,15 +2120,17 @@ class Repo:
                     raw[mod] = (path, rel, src, ast.parse(src, filename=path))
                 except (SyntaxError, OSError, UnicodeDecodeError) as exc:
                     raise AnalysisError("cannot parse %s: %s" % (rel, exc))
-        from .inline import inline_new_helpers, known_functions, undo_renames
+        from .inline import inline_new_helpers, known_functions, undo_renames, changed_functions
+        # which functions are not, token for token, functions of the reference tree (empty on the reference tree)
+        self.changed = changed_functions({mod: v[3] for mod, v in raw.items()})
         self.renamed = undo_renames({mod: v[3] for mod, v in raw.items()})
         props = package_properties(v[3] for v in raw.values())
         for mod, (path, rel, src, tree) in raw.items():
-            tree = items_loops(chain_loops(literal_forms(paired_names(numpy_idioms(function_aliases(compiled_regexes(strip_inert(tree))))))))
+            tree = items_loops(chain_loops(literal_forms(paired_names(numpy_idioms(function_aliases(compiled_regexes(sentinel_dispatch(sroa_namedtuples(strip_inert(tree))))))))))
             tree, inl, skipped = inline_new_helpers(tree, mod, known_functions())
             if inl:
                 self.inlined[mod] = sorted(set(inl))
-                tree = copy_names(literal_forms(forward_single_use_temps(tree)))
+                tree = copy_names(literal_forms(forward_single_use_temps(fold_constant_tests(tree))))
             tree = orient_comparisons(inline_adjacent_temps(forward_single_use_temps(self_attr_aliases(structure_guards(orient_comparisons(sink_returns(tree))), props))))
             self.modules[mod] = Module(mod, path, rel, src, tree)
         if not self.modules:
@@ -2042,6 +2360,22 @@ class Ctx:
             self.floor_failures.append("%s: floor not met for %s: matched %d site(s), at least %d expected"
                                        % (rule, what, found, minimum))
 
+    def attempt(self, rule: str, thunk):
+        """Run one rule.  If it cannot find the construct it is anchored in (AnalysisError) AND the tree differs from the
+        reference tree, the construct is written in a way this rule does not model: NOT-DECIDED on this tree (printed, exit 0).
+        On the reference tree itself the same failure means the checker is broken and stays an analysis error (exit 2)."""
+        try:
+            return thunk()
+        except AnalysisError as exc:
+            if not getattr(self.repo, "changed", None):
+                raise
+            ch = sorted(self.repo.changed)
+            self.ob(rule, None, "rule %s" % rule, True,
+                    "the code this rule is anchored in is not written in a form it reads (%s); %d function(s) differ from the "
+                    "reference tree (%s%s); not decided on this tree" % (str(exc)[:160], len(ch), ", ".join(c.split(":")[-1] for c in ch[:4]),
+                                                                         " ..." if len(ch) > 4 else ""), undecided=True)
+            return None
+
     def func(self, suffix: str, *alts: str) -> Func:
         for s in (suffix,) + alts:
             f = self.repo.func(s, required=False)
@@ -2222,10 +2556,16 @@ def finish(ctx: Ctx, t0: float, spec: Dict[str, Any], extra_cov: Optional[Dict[s
         os.makedirs(os.path.join(VERIF, "evidence"), exist_ok=True)
         with open(os.path.join(VERIF, "evidence", ctx.prop + ".json"), "w") as fh:
             json.dump(ev, fh, indent=1)
-    if ctx.floor_failures and not viol:
+    if ctx.floor_failures and not viol and not getattr(ctx.repo, "changed", None):
         for m in ctx.floor_failures:
             print("ANALYSIS-ERROR property=%s %s" % (ctx.prop, m))
         return 2
+    if ctx.floor_failures and not viol:
+        # fewer sites than on the reference tree, on a tree that differs from it: the constructs are written another way
+        for m in ctx.floor_failures:
+            print("NOT-DECIDED: property=%s [%s] %s (the tree differs from the reference tree in %d function(s)); not decided on this tree"
+                  % (ctx.prop, m.split(":")[0], m, len(ctx.repo.changed)))
+        ctx.floor_failures = []
     for m in ctx.floor_failures:
         print("NOTE: %s" % m)
     print("%s %s: %d obligations, %d discharged, %d known finding(s), %d violation(s), "
